@@ -25,6 +25,30 @@ CHECKS = {
    text="A consumer folding post-change notifications (mirror) must equal the RIB after every call, for instances created before and after hook registration; every resolved-entry notification must carry a snapshot equal to the RIB right after the announced change, be delivered, and stay unchanged (checked at the end of every history). TLC invariant MirrorIsRib + trace validation.",
    note="trusted: TLC, harness fold of notifications; resolved-entry snapshots matched by the spawn hook order"),
 }
+CHECKS.update({
+ "C04": dict(ref="DESIGN.md 5/C04", engine="GribiServer",
+   text="GribiServer models one received message per step with the election/client snapshot taken once per request; TLC checks OnlyPrimaryWrites and ElecOnlyByElection (action properties) over all interleavings of open/announce/operate/close of 2-3 sessions on an id lattice spanning both 64-bit halves; TLC-emitted message sequences and seeded random profiles are driven through the real server.Modify on in-process streams; every RIB call that the specification does not allow at that point (ribCallUnexpected), every state change outside such a call and every divergence of the session's recorded election id are reported.",
+   note="message grain: sessions are driven one message at a time (lock-level interleavings inside one message are C11's subject); trusted: TLC, hooks, in-process stream"),
+ "C05": dict(ref="DESIGN.md 5/C05", engine="GribiServer",
+   text="TLC checks ElecIsMax (learnt id = maximum announced, 128-bit order), ElecMonotone and LowerNeverSteals on all announcement sequences of 3 sessions over a 3x3 id lattice; on the real server every election reply, the learnt id and the primary are compared after every message (ids concretised order-preservingly to uint64 boundary values 1, 5, 2^32, 2^63, 2^64-1).",
+   note="abstract ids are ranks into a table of six uint64 values per half; sequential announcements (concurrent ones: C11)"),
+ "C06": dict(ref="DESIGN.md 5/C06", engine="GribiServer",
+   text="The specification derives, per operation, the exact ModifyResponse (RIB then FIB acks per acknowledged id, FAILED per failed id) from the RIB call's result or from the server's own checks; TLC checks OneVerdict; on the real server every response is compared, extra, missing, misordered and foreign results are reported; held operations resolved by later operations and hand-overs of the primary role are part of the driven histories. One open known finding (held operation answered on another session's stream).",
+   note="a response lost because the RPC is ending (fatal error of a later operation / failed write) is allowed, as the property excuses ended streams"),
+ "C07": dict(ref="DESIGN.md 5/C07", engine="GribiServer",
+   text="GetRPC in the specification returns exactly the installed entries of the (instance, table) scope; on the real server every Get of the request matrix is compared as a set with duplicates, tags and payload identities (proto payload hash against the catalogue that covers every builder field), Get(ALL) vs per-table, empty scopes, error scopes, and rib.FromGetResponses of the responses is compared with the scope's entries. One open known finding (boolean leaves dropped by ygot protomap).",
+   note="payload fidelity is established for the catalogue's field combinations (DESIGN 7)"),
+ "C09": dict(ref="DESIGN.md 5/C09", engine="GribiServer",
+   text="The status table (code + ModifyRPCErrorDetails reason) for every negotiation/protocol violation is part of GribiServer; TLC explores all message sequences over the full alphabet on up to three sessions; on the real server the terminal status, the absence of any effect on RIB/election/other sessions and the removal of the failed session's footprint are compared after every message.",
+   note="where specification.md is silent the pinned behaviour of the reference server is the oracle"),
+ "C10": dict(ref="DESIGN.md 5/C10", engine="GribiServer",
+   text="Close (half-close, receive error) after any message, a failed write of any response (incl. multi-operation requests, whose one straggling operation is modelled), and Get streams whose consumer fails after k responses; after every such fault the specification requires unchanged RIB and election state and the server must keep answering: a step that does not complete within the watchdog is reported with the blocked goroutine frames.",
+   note="in-process streams (no real transport); a hang is confirmed by a goroutine dump showing the frame blocked inside gribigo"),
+})
+CHECKS["C08"]["text"] = CHECKS["C08"]["text"].replace("The election gate of the Flush RPC is decided by the server-level specification (see DESIGN).", "Server part (FlushGate): the complete decision table of network-instance and election fields against the learnt election id is part of GribiServer.FlushVerdict; every Flush RPC's status/reason and effect are compared on the real server.")
+CHECKS["C08"]["note"] = "trusted: TLC, hooks; bounded constants"
+CHECKS["C08"]["engine"] = "GribiRIB+GribiServer"
+CHECKS["C12"]["engine"] = "GribiRIB+GribiServer"
 NA = {}
 def main():
     import families
@@ -61,6 +85,8 @@ def main():
         "engines": [
             {"name": "GribiRIB", "path": "/verif/spec/GribiRIB.tla", "serves_properties": ["C01", "C02", "C03", "C08", "C12", "C16"],
              "kind_free_text": "TLA+ spec of rib/rib.go; GribiRIB_MC (bounded instance, input emission), GribiRIBTrace (trace validation); Go harness /verif/harness (vh rib-run)"},
+            {"name": "GribiServer", "path": "/verif/spec/GribiServer.tla", "serves_properties": ["C04", "C05", "C06", "C07", "C08", "C09", "C10", "C12"],
+             "kind_free_text": "TLA+ spec of server/server.go at message grain on top of GribiRIB; GribiServer_MC, GribiServerTrace; Go harness (vh srv-run) driving server.Server through in-process streams"},
         ],
         "checks": checks,
         "not_applicable": na,
